@@ -9,11 +9,13 @@ Theorem C17_expiry : forall (x : ctx) (t : N), t < 4294967296 ->
 Proof. exact session_expired_spec. Qed.
 Print Assumptions C17_expiry.
 
-(* resumption writes the retransmit queue in queue order and nothing else, and leaves the context
-   state and the waiting operations untouched (they complete on the new connection's acks) *)
+(* resumption writes the retransmit queue in queue order and nothing else, takes one slot of the send quota for each
+   entry (finding F21), and leaves the rest of the context state and the waiting operations untouched (they complete on
+   the new connection's acks) *)
 Theorem C17_resend : forall (l : list (N * bytes)) (s : sys), wbudget s = None ->
   wire_ev (fst (retransmit s l)) = wire_ev s ++ concat (map snd l) /\ snd (retransmit s l) = true /\
-  c (fst (retransmit s l)) = c s /\ ops (fst (retransmit s l)) = ops s.
+  same_but_quota (c (fst (retransmit s l))) (c s) /\ quota (c (fst (retransmit s l))) = quota (c s) - lenN l /\
+  ops (fst (retransmit s l)) = ops s.
 Proof. exact retransmit_wire. Qed.
 Print Assumptions C17_resend.
 
